@@ -2,7 +2,7 @@
 
 use crate::engine::{self, violation};
 use crate::oracle::Scripted;
-use crate::rt::{self, RtCfg, OPS};
+use crate::rt::{self, Ctx, RtCfg, OPS};
 use crate::{gen_rng, swarm_cfg, Swarm};
 use may::coroutine::{self, JoinHandle};
 use may::sync::{mpsc, Mutex, RwLock};
@@ -12,8 +12,13 @@ use std::time::Duration;
 
 pub fn swarm() -> Swarm {
     Swarm {
+        alloc_modes: true,
         stalls: true,
         stall_max_ns: 2_000_000,
+        // a worker held up inside Park::subscribe / Sleep::subscribe while the coroutine it has
+        // just registered is resumed elsewhere and runs to its end (detached: nobody else keeps
+        // its handle alive)
+        stall_focus: &["src/park.rs", "src/sleep.rs", "src/cancel.rs"],
         est_len: 6000,
         max_steps: 800_000,
         ..Default::default()
@@ -413,4 +418,135 @@ fn check_count(v: u64, incs: &AtomicU64, what: &str) {
     if v != c {
         violation(&format!("{} counter is {} after {} completed increments", what, v, c));
     }
+}
+
+// ------------------------------------------------------------------------------------------------
+// detached coroutines (JoinHandle dropped at spawn) whose last blocking call is ended by another
+// thread: nobody but the coroutine itself keeps its handle (park + cancel data) alive, and the
+// worker that registered it may still be busy with the registration when it has already run to
+// its end on another worker
+// ------------------------------------------------------------------------------------------------
+
+#[derive(Debug)]
+struct ParamsD {
+    rt: RtCfg,
+    /// per coroutine: what it blocks in last (0 mpsc recv, 1 Mutex::lock, 2 Semphore::wait,
+    /// 3 coroutine::park), steps of the waker before it acts, yields of the coroutine afterwards
+    cos: Vec<(u8, u32, u32)>,
+}
+
+fn gen_d(seed: u64) -> ParamsD {
+    let mut r = gen_rng(seed);
+    let mut rt = RtCfg::gen(&mut r, 3);
+    rt.workers = rt.workers.max(2);
+    rt.pool_cap = *r.pick(&[1usize, 2, 8]);
+    let n = r.range(1, 4) as usize;
+    ParamsD { rt, cos: (0..n).map(|_| (r.below(4) as u8, r.below(25) as u32, r.below(3) as u32)).collect() }
+}
+
+pub fn run_detached(seed: u64, mut ov: impl FnMut(&mut engine::Cfg)) -> ! {
+    use may::sync::Semphore;
+    let p = gen_d(seed);
+    let mut cfg = swarm_cfg(seed, &swarm());
+    // the window is "registered, registration not finished": always hold some worker up inside
+    // the park / cancel code for a while
+    cfg.stall_budget = 2;
+    cfg.stall_ppm = 1500;
+    cfg.stall_max_ns = 600_000;
+    cfg.stall_focus = &["src/park.rs", "src/cancel.rs"];
+    cfg.tick_ns = 25;
+    ov(&mut cfg);
+    engine::init(cfg);
+    engine::set_extra("params", engine::json_str(&format!("{:?}", p)));
+    rt::boot(&p.rt);
+    engine::set_diag(|| format!("in flight: {}", OPS.pending()));
+    engine::set_vt_limit(engine::now() + 300_000_000);
+
+    let mut actors: Vec<rt::Actor> = Vec::new();
+    let mut dones = Vec::new();
+    for (ci, (kind, dally, tail)) in p.cos.iter().cloned().enumerate() {
+        let started = Arc::new(AtomicBool::new(false));
+        let done = Arc::new(AtomicBool::new(false));
+        let (tx, rx) = mpsc::channel::<u32>();
+        let m = Arc::new(Mutex::new(0u32));
+        let sem = Arc::new(Semphore::new(0));
+        let co_slot: Arc<std::sync::Mutex<Option<coroutine::Coroutine>>> = Arc::new(std::sync::Mutex::new(None));
+        // the lock is held by the waker until it lets the coroutine go
+        let (m2, sem2, st2, d2, slot2) = (m.clone(), sem.clone(), started.clone(), done.clone(), co_slot.clone());
+        let (m3, sem3, st3, slot3) = (m.clone(), sem.clone(), started.clone(), co_slot.clone());
+        let locked = Arc::new(AtomicBool::new(false));
+        let (l2, l3) = (locked.clone(), locked.clone());
+        actors.push(rt::spawn_actor(Ctx::Thread, &format!("waker{}", ci), move || {
+            let g = if kind == 1 { Some(m3.lock().unwrap()) } else { None };
+            rt::set_flag(&l3);
+            rt::wait_flag(&st3, usize::MAX);
+            for _ in 0..dally {
+                engine::yield_point();
+            }
+            match kind {
+                0 => {
+                    let _ = tx.send(7);
+                }
+                1 => drop(g),
+                2 => sem3.post(),
+                _ => {
+                    // the handle is given back at once: the coroutine stays the only owner
+                    let h = slot3.lock().unwrap().take();
+                    if let Some(h) = h {
+                        h.unpark();
+                        drop(h);
+                    }
+                }
+            }
+        }));
+        rt::wait_flag(&l2, usize::MAX);
+        let h = unsafe {
+            coroutine::spawn(move || {
+                struct G(Arc<AtomicBool>);
+                impl Drop for G {
+                    fn drop(&mut self) {
+                        rt::set_flag(&self.0);
+                    }
+                }
+                let _g = G(d2);
+                if kind == 3 {
+                    *slot2.lock().unwrap() = Some(coroutine::current());
+                }
+                rt::set_flag(&st2);
+                match kind {
+                    0 => {
+                        if rx.recv() != Ok(7) {
+                            violation("detached coroutine: recv did not deliver the value");
+                        }
+                    }
+                    1 => {
+                        let mut g = m2.lock().unwrap();
+                        *g += 1;
+                    }
+                    2 => sem2.wait(),
+                    _ => coroutine::park(),
+                }
+                for _ in 0..tail {
+                    coroutine::yield_now();
+                }
+            })
+        };
+        // detached: from here on only the coroutine itself keeps its handle alive
+        drop(h);
+        dones.push((ci, done));
+    }
+    rt::await_actors(&actors, engine::now() + 100_000_000);
+    for (ci, d) in dones {
+        let o = OPS.begin(format!("end of detached coroutine {}", ci));
+        rt::wait_flag(&d, usize::MAX);
+        o.done();
+    }
+    // let the workers finish what they were doing with these coroutines
+    engine::sleep(3_000_000);
+    // the runtime still works
+    let h = unsafe { coroutine::spawn(|| 5u32) };
+    if !matches!(h.join(), Ok(5)) {
+        violation("a coroutine spawned afterwards did not complete");
+    }
+    engine::finish_ok()
 }
